@@ -369,6 +369,39 @@ func (a *ordA) analyzeFn(fn *ssa.Function) {
 					a.sources++
 					if rep != nil {
 						if fname == "(*Parser).WriteManPage" {
+							// the clock may reach the page only when SOURCE_DATE_EPOCH is empty: every use of the reading
+							// is a phi edge taken under `SOURCE_DATE_EPOCH == ""` (Requires on the edge's source)
+							okClock := true
+							why := ""
+							if refs := x.Referrers(); refs != nil {
+								for _, ref := range *refs {
+									switch u := ref.(type) {
+									case *ssa.DebugRef:
+									case *ssa.Phi:
+										for i, e := range u.Edges {
+											if e != ssa.Value(x) {
+												continue
+											}
+											pred := u.Block().Preds[i]
+											m := litIs(`nonempty(call:os.Getenv("SOURCE_DATE_EPOCH"))`, false)
+											if l, ok := c.edgeLitTo(pred, u.Block()); ok && m(l) {
+												continue
+											}
+											if _, ok := c.Requires(in.Parent(), isInstr(pred.Instrs[len(pred.Instrs)-1]), m, nil); !ok {
+												okClock = false
+												why = "the clock value is selected at " + c.ipos(u) + " on a path where SOURCE_DATE_EPOCH is set"
+											}
+										}
+									default:
+										okClock = false
+										why = "the clock value is used at " + c.ipos(ref) + " regardless of SOURCE_DATE_EPOCH"
+									}
+								}
+							}
+							if !okClock {
+								rep.Fail("ORD-source", fname, "time.Now", c.ipos(in), "the wall clock reaches the man page although SOURCE_DATE_EPOCH is set (same environment, different output): "+why)
+								continue
+							}
 							rep.Allow("ORD-source", fname, "time.Now", c.ipos(in), "the man page date is an input (clock / SOURCE_DATE_EPOCH) at day granularity — recorded assumption, not an incidental order")
 						} else {
 							rep.Fail("ORD-source", fname, "time.Now", c.ipos(in), "wall clock read")
